@@ -50,6 +50,10 @@ def setup(c, cleaned, subs):
                 'npstartA_merge': arrays.as_sarr(real_np.array([0, 1], dtype=real_np.int64)), 'npoutA_merge': arrays.as_sarr(real_np.array([1, 0], dtype=real_np.uint32)),
                 'N_total': arrays.as_sarr(real_np.array([5, 7], dtype=real_np.uint32))}
     files, hdr = catlib.fresh_files(c, [0], 2, cleaned, concrete={0: conc})
+    # light-cone product: the single particle file is always present (the reader opens it even with subsamples off)
+    files['/cat/lc_pid_rv.asdf'] = {'header': dict(hdr), 'data': {'pos': arrays.as_sarr(real_np.zeros((3, 3), dtype='f4')),
+                                                                  'vel': arrays.as_sarr(real_np.zeros((3, 3), dtype='f4')),
+                                                                  'pid': arrays.as_sarr(real_np.arange(3, dtype='u8'))}}
     if subs:
         files['/cat/halo_rv_A/halo_rv_A_000.asdf'] = {'header': dict(hdr), 'data': {'rvint': common.sym_array('rvA', (3, 3), 'i4', bv=True)}}
         if cleaned:
@@ -57,9 +61,11 @@ def setup(c, cleaned, subs):
     catlib.install(files)
 
 
-def load(c, fields, cleaned, subs, convert):
+def load(c, fields, cleaned, subs, convert, lc=False):
     """one constructor run; returns {column: list of cells} or the exception"""
     kw = dict(fields=fields, convert_units=convert, subsamples=dict(A=True, pos=True) if subs else False)
+    if lc:
+        kw['halo_lc'] = True
     try:
         cat = catlib.construct('/cat', [0], cleaned, **kw)
     except (KeyError, ValueError, TypeError, IndexError, AttributeError, AssertionError) as e:
@@ -98,9 +104,13 @@ def outname(col, cleaned):
     return col
 
 
-def body(cleaned, subs, convert, cols, pairs):
+def body(cleaned, subs, convert, cols, pairs, lc=False):
     c = ctx()
-    case = dict(cleaned=cleaned, subsamples=subs, convert_units=convert, columns=list(cols)[:6] + (['...'] if len(cols) > 6 else []), npairs=len(pairs))
+    _load = globals()['load']
+
+    def load(c, f, cl, su, co):        # every load of a light-cone body is a light-cone load
+        return _load(c, f, cl, su, co, lc=lc)
+    case = dict(cleaned=cleaned, subsamples=subs, convert_units=convert, lightcone=lc, columns=list(cols)[:6] + (['...'] if len(cols) > 6 else []), npairs=len(pairs))
     c.extra['case'] = case
     c.extra['keyprefix'] = 'fields:'
     setup(c, cleaned, subs)
@@ -172,9 +182,22 @@ def families():
     return fam
 
 
+def lc_columns():
+    return list(chc.halo_lc_dt.names) + [n for n in USER if 'L2' in n and n not in chc.halo_lc_dt.names]
+
+
 def items(tier, seed):
     out = []
     rng = random.Random(seed)
+    # halo light-cone catalogues: the light-cone columns and the L2com columns they keep
+    lcc = lc_columns()
+    for k in range(0, len(lcc), 12):
+        out.append(dict(name=f'lightcone/cols{k:03d}', cleaned=False, subs=False, convert=True, cols=lcc[k:k + 12], pairs=[], lc=True))
+    lcn = list(chc.halo_lc_dt.names)
+    lpairs = [(a, b) for a in lcn for b in lcn if a != b and ('interp' in a or 'avg' in a) and ('interp' in b or 'avg' in b)]
+    lpairs += [tuple(rng.sample(lcc, 2)) for _ in range(12 if tier == 'quick' else 100)]
+    for k in range(0, len(lpairs), 12):
+        out.append(dict(name=f'lightcone/pairs{k:03d}', cleaned=False, subs=False, convert=True, cols=[], pairs=lpairs[k:k + 12], lc=True))
     for cleaned in (False, True):
         for subs in (False, True):
             for convert in (True, False):
@@ -207,7 +230,8 @@ def items(tier, seed):
 
 
 def run(item):
-    return common.run_paths(lambda: body(item['cleaned'], item['subs'], item['convert'], item['cols'], [tuple(p) for p in item['pairs']]),
+    return common.run_paths(lambda: body(item['cleaned'], item['subs'], item['convert'], item['cols'], [tuple(p) for p in item['pairs']],
+                                         lc=item.get('lc', False)),
                             cov_funcs=FUNCS, max_paths=2000)[0]
 
 
